@@ -286,6 +286,19 @@ func (e *Engine) loopWrites(lp *loop) []string {
 	return out
 }
 
+// loopWritesNonLocal: the families the loop may write through objects that are not allocated inside
+// the loop body itself (callee summaries already leave out callee-local objects).
+func (e *Engine) loopWritesNonLocal(lp *loop) map[string]bool {
+	ws := writeSet{}
+	inLoop := func(a *ssa.Alloc) bool { return lp.body[a.Block()] }
+	for b := range lp.body {
+		for _, in := range b.Instrs {
+			e.instrWrites(in, ws, inLoop)
+		}
+	}
+	return ws
+}
+
 // ---------------------------------------------------------------- cutting
 
 func (e *Engine) loopKey(fn *ssa.Function, lp *loop) string {
@@ -370,6 +383,8 @@ func (e *Engine) cutLoop(s *State, f *Frame, lp *loop, from *ssa.BasicBlock) {
 	}
 	var builders []bstate
 	fams := e.loopWrites(lp)
+	nonLocal := e.loopWritesNonLocal(lp)
+	var wmPre *Term
 	for _, fam := range fams {
 		if fam == "*unknown-dynamic-call*" {
 			e.fail("%s: loop calls an unknown dynamic function; write set unknown", key)
@@ -394,6 +409,21 @@ func (e *Engine) cutLoop(s *State, f *Frame, lp *loop, from *ssa.BasicBlock) {
 		}
 		if e.curFramed && len(s.frames) == 1 {
 			s.havocFamilyEntryFramed(fam, ver, e.curExcept, entry.heapAtEntry)
+		} else if !nonLocal[fam] {
+			// every write of the loop to this family goes through an object allocated inside the loop
+			// body (a copied range element, a composite literal): objects that existed when the loop was
+			// entered keep their values
+			if wmPre == nil {
+				wmPre = Sym(e.freshName("wmpreloop"), SInt)
+				if *s.nalloc > int(initAllocBoundary) {
+					s.assume(Le(Alloc(*s.nalloc-1), wmPre))
+				}
+				if n := len(s.marks); n > 0 {
+					s.assume(Le(s.marks[n-1].wmpost, wmPre))
+				}
+				s.assume(Le(Sym("ALLOC0", SInt), wmPre))
+			}
+			s.havocFamilyFramed(fam, ver, wmPre, nil, entry.heapAtEntry)
 		} else {
 			s.havocFamily(fam, ver)
 		}
